@@ -423,7 +423,12 @@ impl Typer {
 
         let expr_tast = self.coerce_to_expected_dyn(genv, diagnostics, e, expr_tast, expected);
         self.push_constraint(Constraint::TypeEqual(expr_tast.get_ty(), expected.clone()));
-        self.record_expr_result(e, &expr_tast);
+        // The coercion is recorded separately and re-applied around the rebuilt
+        // expression, so the expression itself keeps its own (pre-coercion) type.
+        match &expr_tast {
+            tast::Expr::EToDyn { expr: inner, .. } => self.record_expr_result(e, inner),
+            _ => self.record_expr_result(e, &expr_tast),
+        }
         expr_tast
     }
 
